@@ -692,6 +692,22 @@ class T:
     def clip(self, min=None, max=None):
         return clamp(self, min, max)
 
+    def clamp_min(self, v):
+        return clamp(self, min=v)
+
+    def clamp_max(self, v):
+        return clamp(self, max=v)
+
+    def clamp_min_(self, v):
+        _assign(self, clamp(self, min=v).a)
+        return self
+
+    def __getattr__(self, name):
+        # only reached for attributes that are not modelled: loud, and never mistaken for an exception of the code under test
+        if name.startswith("__"):
+            raise AttributeError(name)
+        raise Unmodelled("Tensor.%s is not modelled by symtorch" % name)
+
     def lerp(self, end, weight):
         return lerp(self, end, weight)
 
